@@ -275,10 +275,11 @@ func (w *World) valueErrState(v ssa.Value, at *ssa.BasicBlock, d int) tri {
 // ---- guards
 
 type Guard struct {
-	If   *ssa.If
-	Cond string // canonical condition under which the function FAILS
-	Pass *ssa.BasicBlock
-	Fail *ssa.BasicBlock
+	If    *ssa.If
+	CondI string // Cond with simple helpers inlined
+	Cond  string // canonical condition under which the function FAILS
+	Pass  *ssa.BasicBlock
+	Fail  *ssa.BasicBlock
 }
 
 // failsOnly: every path from b ends in a return whose error operand is not
@@ -331,11 +332,12 @@ func (w *World) Guards(fn *ssa.Function) []*Guard {
 		tf := w.failsOnly(t, map[*ssa.BasicBlock]int{})
 		ff := w.failsOnly(f, map[*ssa.BasicBlock]int{})
 		c := w.Canon(ifi.Cond)
+		ci := w.CanonI(ifi.Cond)
 		switch {
 		case tf && !ff:
-			out = append(out, &Guard{If: ifi, Cond: c, Pass: f, Fail: t})
+			out = append(out, &Guard{If: ifi, Cond: c, CondI: ci, Pass: f, Fail: t})
 		case ff && !tf:
-			out = append(out, &Guard{If: ifi, Cond: negateCond(c), Pass: t, Fail: f})
+			out = append(out, &Guard{If: ifi, Cond: negateCond(c), CondI: negateCond(ci), Pass: t, Fail: f})
 		}
 	}
 	return out
@@ -350,7 +352,7 @@ func (g *Guard) Protects(p *ssa.BasicBlock) bool {
 func (w *World) FindGuards(fn *ssa.Function, match func(cond string) bool) []*Guard {
 	var out []*Guard
 	for _, g := range w.Guards(fn) {
-		if match(g.Cond) {
+		if match(g.Cond) || g.CondI != g.Cond && match(g.CondI) {
 			out = append(out, g)
 		}
 	}
